@@ -216,6 +216,26 @@ func modelBytes(c *Case) ([]byte, bool) {
 	return b.Bytes(), true
 }
 
+// archiveEntryDamaged: the archive opens and has an entry, but reading that entry to the end with archive/zip
+// itself fails (checksum mismatch, broken deflate stream, size mismatch).
+func archiveEntryDamaged(c *Case) bool {
+	if c.Reader != "zip-store" && c.Reader != "zip-deflate" {
+		return false
+	}
+	zr, err := zip.NewReader(bytes.NewReader(c.Data), int64(len(c.Data)))
+	if err != nil || len(zr.File) == 0 {
+		return false
+	}
+	rc, err := zr.File[0].Open()
+	if err != nil {
+		return true
+	}
+	defer rc.Close()
+	var b bytes.Buffer
+	_, err = b.ReadFrom(rc)
+	return err != nil
+}
+
 // pinnedOps: the operator names implemented at the pinned commit. The "implemented set" of the
 // tree under test is this list united with whatever opset13.GetOpNames() returns there.
 var pinnedOps = []string{"Abs", "Acos", "Acosh", "Add", "And", "ArgMax", "Asin", "Asinh", "Atan", "Atanh", "Cast",
@@ -501,6 +521,9 @@ func Check12(c *Case, env *Env) []verdict {
 	if !known {
 		if o.kind == "panic" {
 			return []verdict{{sig: "load-panic@" + o.frame + ":" + o.pmsg, what: "load panicked: " + o.pmsg}}
+		}
+		if o.kind == "ok" && c.ZipFail < 0 && archiveEntryDamaged(c) {
+			return []verdict{{sig: "damaged-archive-entry-loaded:" + c.Reader, what: "archive/zip reads the entry to the end and reports that it is damaged (checksum / format error), yet NewModelFromZipFile returned a Model: its weights are not the ones that were archived"}}
 		}
 		return nil
 	}
